@@ -3,7 +3,7 @@
    All statements are unbounded: every byte list, every tree of any depth and width, every integer,
    every decimal magnitude.  Model: Engine/Model.v (tied to the code by harness/vh/c18.py). *)
 From PsdV Require Import Base.Prelude Engine.Model Engine.Corr
-  Engine.ProofsLex Engine.ProofsLeaf Engine.ProofsParse Engine.ProofsWrite Engine.ProofsFuel Engine.ProofsCount Engine.ProofsSpace Engine.Embedded.
+  Engine.ProofsLex Engine.ProofsLeaf Engine.ProofsParse Engine.ProofsWrite Engine.ProofsFuel Engine.ProofsCount Engine.ProofsSpace Engine.Embedded Engine.ProofsReparse.
 
 (* ------------------------------------------------------------------ strings *)
 (* 1. the three sequential un-escaping replaces undo the three sequential escaping replaces, for
@@ -55,8 +55,8 @@ Example int_element_roundtrip_hyp : int_ok (2 ^ 63) = true /\ int_ok (- 2 ^ 200)
 Proof. repeat split; vm_compute; reflexivity. Qed.
 (* the limit: every integer of magnitude >= 10^4300 is outside; its write() raises ValueError, and a token of more
    than 4300 digits cannot be read (one of exactly 4300 can) *)
-Theorem int_limit : forall z, 10 ^ 4300 <= Z.abs z -> int_ok z = false.
-Proof. exact ProofsLeaf.int_ok_limit. Qed.
+Theorem int_limit : forall z, int_ok z = true <-> Z.abs z < 10 ^ 4300.
+Proof. exact ProofsReparse.int_ok_iff. Qed.
 Print Assumptions int_limit.
 Theorem int_limit_refuted :
   (forall ly, write ly [([97], TInt (10 ^ 4300))] = Err ValueErr) /\
@@ -109,18 +109,33 @@ Print Assumptions tokens_roundtrip_compact.
 
 (* ------------------------------------------------------------------ the round trip *)
 (* 7. EngineData (indented, with container): every well-formed tree is written without error and read back
-      equal -- any depth, any width, Lists of any mixture of items.  (Until commit 073f171 this needed the
-      guard "a List written with an indent holds Dicts only": finding F-C18-2, now fixed.) *)
+      equal to the 8 decimal places the text keeps ([untiny_kvs d]: d itself unless it holds a non-zero decimal
+      below 5e-9, which comes back as zero) -- any depth, any width, Lists of any mixture of items.  (Until commit
+      073f171 this needed the guard "a List written with an indent holds Dicts only": finding F-C18-2, now fixed.) *)
 Theorem parse_print_indented : forall d,
-  wf_tree (TDict d) = true -> exists bs, write Indented d = Ok bs /\ parse bs = Ok d.
+  wf_tree (TDict d) = true -> exists bs, write Indented d = Ok bs /\ parse bs = Ok (untiny_kvs d).
 Proof. exact ProofsWrite.parse_write_indented. Qed.
 Print Assumptions parse_print_indented.
 
 (* 8. EngineData2 (compact, no container): every well-formed tree *)
 Theorem parse_print_compact : forall d,
-  wf_tree (TDict d) = true -> exists bs, write Compact d = Ok bs /\ parse bs = Ok d.
+  wf_tree (TDict d) = true -> exists bs, write Compact d = Ok bs /\ parse bs = Ok (untiny_kvs d).
 Proof. exact ProofsWrite.parse_write_compact. Qed.
 Print Assumptions parse_print_compact.
+
+(* 8b. exactly equal when no decimal is tiny; and in general stable from the second generation on *)
+Theorem parse_print_exact : forall ly d, wf_tree (TDict d) = true -> notiny (TDict d) = true ->
+  exists bs, write ly d = Ok bs /\ parse bs = Ok d.
+Proof. exact ProofsWrite.parse_write_exact. Qed.
+Print Assumptions parse_print_exact.
+Theorem rewrite_stable : forall ly d, wf_tree (TDict d) = true ->
+  exists bs d' bs', write ly d = Ok bs /\ parse bs = Ok d' /\ write ly d' = Ok bs' /\ parse bs' = Ok d' /\ d' = untiny_kvs d.
+Proof. exact ProofsWrite.rewrite_stable. Qed.
+Print Assumptions rewrite_stable.
+Example tiny_roundtrip : let d := [([97], TList [TFloat (Fl true 0 true); TFloat (Fl false 3 false)])] in
+  wf_tree (TDict d) = true /\ notiny (TDict d) = false /\
+  untiny_kvs d = [([97], TList [TFloat (Fl true 0 false); TFloat (Fl false 3 false)])].
+Proof. repeat split. Qed.
 
 (* the hypotheses are satisfiable by a tree with every element class, nesting through Dicts and Lists, strings
    ending in byte 0x5C, a List of Dicts (indented), a List holding a Dict after a number (compact inside),
@@ -132,8 +147,8 @@ Definition sample : kvs :=
                      ([116], TTag [40;104;119;105;100;41]); ([112], TProp [95;57]);
                      ([122], TList [TDict []; TInt 5; TFloat (Fl false 550000000 false); TList [TInt 1]; TDict [([97], TStr [0;120])]; TBool false])]);
    ([48], TList [])].
-Example parse_print_hyp : wf_tree (TDict sample) = true.
-Proof. vm_compute. reflexivity. Qed.
+Example parse_print_hyp : wf_tree (TDict sample) = true /\ notiny (TDict sample) = true /\ untiny_kvs sample = sample.
+Proof. repeat split; vm_compute; reflexivity. Qed.
 Example parse_print_sample :
   (exists bs, write Indented sample = Ok bs /\ parse bs = Ok sample) /\
   (exists bs, write Compact sample = Ok bs /\ parse bs = Ok sample).
@@ -143,7 +158,7 @@ Qed.
 
 (* 9. what was written is rewritten byte for byte after being read (fixture blobs; the engine data embedded in a
       type layer, which TypeToolObjectSetting parses on read and writes back through the same writer) *)
-Theorem rewrite_unchanged : forall ly d bs, wf_tree (TDict d) = true ->
+Theorem rewrite_unchanged : forall ly d bs, wf_tree (TDict d) = true -> notiny (TDict d) = true ->
   write ly d = Ok bs ->
   match parse bs with Ok d' => write ly d' | Err e => Err e end = Ok bs.
 Proof. exact ProofsWrite.rewrite_unchanged. Qed.
@@ -181,12 +196,12 @@ Print Assumptions parse_whitespace_insensitive.
        of the tree, laid out in any way [ws_ok] allows, are read as the tree (with and without the container) *)
 Theorem parse_any_layout : forall d ps trail,
   wf_tree (TDict d) = true -> map snd ps = ptoks (TDict d) -> ws_ok true ps = true ->
-  forallb is_div trail = true -> parse (render ps ++ trail) = Ok d.
+  forallb is_div trail = true -> parse (render ps ++ trail) = Ok (untiny_kvs d).
 Proof. exact ProofsSpace.parse_any_layout. Qed.
 Print Assumptions parse_any_layout.
 Theorem parse_any_layout_bare : forall d ps trail,
   wf_tree (TDict d) = true -> map snd ps = eptoks d -> ws_ok true ps = true ->
-  forallb is_div trail = true -> parse (render ps ++ trail) = Ok d.
+  forallb is_div trail = true -> parse (render ps ++ trail) = Ok (untiny_kvs d).
 Proof. exact ProofsSpace.parse_any_layout_bare. Qed.
 Print Assumptions parse_any_layout_bare.
 (* e.g. the sample tree with "\n\t\t " before every token but nothing after a string, and "\n\n" at the end *)
@@ -230,7 +245,7 @@ Theorem type_tool_engine_data_roundtrip : forall units t pad x d bs blk n rest,
   Descriptor.wf_terms t = true -> wf_tysh units x = true ->
   wf_tree (TDict d) = true -> write Indented d = Ok bs -> find_raw (text_items (ty_text x)) = Some bs ->
   write_tysh t pad x = Ok (blk, n) ->
-  read_tysh units t (blk ++ rest) = Ok (x, Some d) /\
+  read_tysh units t (blk ++ rest) = Ok (x, Some (untiny_kvs d)) /\
   raw_obj_w Indented d = Descriptor.write_dval t (Descriptor.DRaw Descriptor.OS_tdta bs) /\
   (forall x' e, read_tysh units t (blk ++ rest) = Ok (x', e) -> write_tysh t pad x' = Ok (blk, n)).
 Proof. exact Embedded.type_tool_engine_data_roundtrip. Qed.
@@ -242,9 +257,31 @@ Theorem type_tool_block_roundtrip : forall units t v pad sg key x d bs blk n res
   Descriptor.wf_terms t = true -> wf_tysh units x = true ->
   wf_tree (TDict d) = true -> write Indented d = Ok bs -> find_raw (text_items (ty_text x)) = Some bs ->
   Typed.write_payload_block v pad sg key (write_tysh t 4 x) = Ok (blk, n) ->
-  Typed.read_payload_block (read_tysh units t) v pad (blk ++ rest) = Ok (Some (sg, key, (x, Some d), rest)).
+  Typed.read_payload_block (read_tysh units t) v pad (blk ++ rest) = Ok (Some (sg, key, (x, Some (untiny_kvs d)), rest)).
 Proof. exact Embedded.type_tool_block_roundtrip. Qed.
 Print Assumptions type_tool_block_roundtrip.
+
+(* ------------------------------------------------------------------ any data the reader accepts *)
+(* 9h. whatever bytes parse reads without error (Photoshop's own text, any fixture, anything), the tree it returns
+       is well-formed ... *)
+Theorem parse_wf : forall data d, parse data = Ok d -> wf_tree (TDict d) = true.
+Proof. exact ProofsReparse.parse_wf. Qed.
+Print Assumptions parse_wf.
+(* ... hence it is written back, in either layout, to text that reads as the same tree (to 8 places; exactly the same
+   when the data held no non-zero decimal below 5e-9): read - expose - write back for EVERY accepted input *)
+Theorem reparse_any_input : forall data d ly, parse data = Ok d ->
+  exists bs, write ly d = Ok bs /\ parse bs = Ok (untiny_kvs d) /\ (notiny (TDict d) = true -> parse bs = Ok d).
+Proof. exact ProofsReparse.reparse_any_input. Qed.
+Print Assumptions reparse_any_input.
+Example reparse_any_input_hyp :                                    (* "/a  [ 00.50 (..x)7 ] 12 /a -3" : not the library's layout, a stray token, a repeated key *)
+  parse [47;97;32;32;91;32;48;48;46;53;48;32;40;254;255;0;120;41;55;32;93;32;49;50;32;47;97;32;45;51] = Ok [([97], TInt (-3))].
+Proof. vm_compute. reflexivity. Qed.
+(* different trees are written as different texts *)
+Theorem write_injective : forall ly d1 d2 bs,
+  wf_tree (TDict d1) = true -> wf_tree (TDict d2) = true -> notiny (TDict d1) = true -> notiny (TDict d2) = true ->
+  write ly d1 = Ok bs -> write ly d2 = Ok bs -> d1 = d2.
+Proof. exact ProofsReparse.write_injective. Qed.
+Print Assumptions write_injective.
 
 (* 10. the fuel of the model's tokenizer and reader is always sufficient: OutOfFuel is never an outcome *)
 Theorem parse_never_out_of_fuel : forall data, parse data <> Err OutOfFuel.
